@@ -24,6 +24,8 @@ if not c.quick:
                      maxops=4, graphops=0, sims=60, simops=10, big=True, sim=dict(times=[1, 2, 3], maxrows=3, maxtotal=9)))
 import stream_fams
 fams += stream_fams.c01(c)
+import trace_fams
+fams += trace_fams.c01(c)
 tot, stats, samples, nontriv, cover = ec.run_families(c, fams, binp, lambda st: sum(1 for x in st[1:] if x['last'].get('op') == 'write') >= 2)
 c.cov.update(states=tot['states'], transitions=tot['transitions'], traces_validated_against_impl=0,
              behaviours_replayed=tot['behaviours'], steps_replayed=tot['steps'], simulated_behaviours=tot['sims'],
